@@ -1752,7 +1752,14 @@ impl KotoVm {
                 Str(result.into())
             }
             (List(a), List(b)) => {
-                let result: ValueVec = a.data().iter().chain(b.data().iter()).cloned().collect();
+                let data_a = a.data();
+                let result: ValueVec = if a.is_same_instance(b) {
+                    // A list that's added to itself is only borrowed once,
+                    // a second borrow could otherwise be blocked by a waiting writer.
+                    data_a.iter().chain(data_a.iter()).cloned().collect()
+                } else {
+                    data_a.iter().chain(b.data().iter()).cloned().collect()
+                };
                 List(KList::with_data(result))
             }
             (Tuple(a), Tuple(b)) => {
@@ -2088,8 +2095,14 @@ impl KotoVm {
                 let a = a.clone();
                 let b = b.clone();
                 let data_a = a.data();
-                let data_b = b.data();
-                self.compare_value_ranges(&data_a, &data_b)?
+                if a.is_same_instance(&b) {
+                    // A list that's compared with itself is only borrowed once,
+                    // a second borrow could otherwise be blocked by a waiting writer.
+                    self.compare_value_ranges(&data_a, &data_a)?
+                } else {
+                    let data_b = b.data();
+                    self.compare_value_ranges(&data_a, &data_b)?
+                }
             }
             (Tuple(a), Tuple(b)) => {
                 let a = a.clone();
@@ -2140,8 +2153,14 @@ impl KotoVm {
                 let a = a.clone();
                 let b = b.clone();
                 let data_a = a.data();
-                let data_b = b.data();
-                !self.compare_value_ranges(&data_a, &data_b)?
+                if a.is_same_instance(&b) {
+                    // A list that's compared with itself is only borrowed once,
+                    // a second borrow could otherwise be blocked by a waiting writer.
+                    !self.compare_value_ranges(&data_a, &data_a)?
+                } else {
+                    let data_b = b.data();
+                    !self.compare_value_ranges(&data_a, &data_b)?
+                }
             }
             (Tuple(a), Tuple(b)) => {
                 let a = a.clone();
